@@ -35,6 +35,8 @@ def run(ctx, rep):
     rep.rule("wait-status", "WEXITSTATUS(s) is evaluated only under WIFEXITED(s); the other edge yields a non-zero status")
     rep.rule("io-must-use", "no io::Result/crate Result produced in file_writer is dropped, except the listed best-effort rows")
 
+    if ctx.config == "nofork":
+        return run_nofork(ctx, rep, F, P)
     # ---- wmc-exit ------------------------------------------------------------------------------
     sites = P.callers_of(lambda k: k in EXITS)
     counts = {}
@@ -300,3 +302,38 @@ def check_ok_only_after(rep, P, body, run_calls, extra_value_calls=(), tail_call
                    f"returned value derives from {sorted(calls)}", body.file, body.line)
     if n == 0:
         rep.lost("status-zero", f"Ok return in {body.key}")
+
+
+def run_nofork(ctx, rep, F, P):
+    """Build without the `fork` feature (subprocess_unsupported.rs): run_in_subprocess runs the link in-process and exits."""
+    import decide
+    b = F.body("libwild::subprocess::run_in_subprocess")
+    if b is None:
+        rep.lost("status-zero", "libwild::subprocess::run_in_subprocess (no-fork build)")
+        return
+    cfg, flow = P.cfg(b), P.flow(b)
+    exits = [(bi, t) for bi, t in flow.calls() if callee_key(t["f"]) in EXITS]
+    rep.ob("wmc-exit", "nofork:one-exit", len(exits) == 1, f"{len(exits)} process exit call(s) in the no-fork run_in_subprocess", b.file, b.line)
+    n0 = nz = 0
+    for bi, blk in enumerate(b.blocks):
+        if bi not in cfg.reach or blk.get("cleanup"):
+            continue
+        for s in blk["s"]:
+            if s["k"] == "assign" and s["rv"]["k"] == "use" and s["rv"]["a"][0] == "k" and b.locals[s["p"][0]].strip() == "i32" and not s["p"][1]:
+                v = s["rv"]["a"][1].get("val")
+                at = decide.atoms_at(P, F, b, bi)
+                on_ok = any(a.startswith("variant:Result") and "Ok" in val and "Err" not in val for a, val in at if not isinstance(val, bool))
+                on_err = any(a.startswith("variant:Result") and "Err" in val and "Ok" not in val for a, val in at if not isinstance(val, bool))
+                if v == 0:
+                    n0 += 1
+                    rep.ob("status-zero", "nofork:zero-on-ok", on_ok, "status 0 is produced only on the Ok arm of libwild::run", b.file, s["l"])
+                else:
+                    nz += 1
+                    rep.ob("status-zero", "nofork:nonzero-on-err", on_err or not on_ok, f"status {v} on the error arm", b.file, s["l"])
+    rep.ob("status-zero", "nofork:both-arms", n0 == 1 and nz >= 1, f"{n0} zero / {nz} non-zero status constant(s)", b.file, b.line)
+    runs = [bi for bi, t in flow.calls() if callee_key(t["f"]) in ("libwild::run",)]
+    rep.ob("status-zero", "nofork:runs-link", len(runs) == 1 and all(cfg.dominates(r, e[0]) for r in runs for e in exits), "the exit is dominated by the call of libwild::run", b.file, b.line)
+    for e, t in exits:
+        o = flow.origins(t["args"][0])
+        rep.ob("wmc-exit", "nofork:status-flows", {x[1] for x in o if x[0] == "const"} >= {0}, f"exit status derives from constants {sorted(str(x[1]) for x in o if x[0] == 'const')}", b.file, t["l"])
+    rep.assume("no-fork build: a panic or abort terminates this (only) process with a non-zero status")
